@@ -19,7 +19,7 @@ WARMUP = 1 << 18
 
 def plan(tier, seed):
     shards = []
-    for i in range(4 if tier == 'quick' else 8):
+    for i in range(4 if tier == 'quick' else 24):
         shards.append({'name': 'small-%d' % i, 'fn': 'shard_small', 'args': {'part': i}})
     shards.append({'name': 'boundary-strings', 'fn': 'shard_boundary', 'args': {'kind': 'str', 'upto': 1 << 19}})
     shards.append({'name': 'boundary-hashes', 'fn': 'shard_boundary', 'args': {'kind': 'hex', 'upto': (1 << 18) + 4000}})
